@@ -841,7 +841,7 @@ func checkProc(prop, tier string, seed uint64, runsOverride int, keep bool) int 
 		"assumptions": []string{"schedule forcing over real processes: the property-relevant order space (position of Done() relative to the launcher's steps; of Launch's return relative to the daemon's pre-Done work) is covered by four forced schedules; kernel micro-timing inside a forced order is not controlled", "the pause hook (build tag verif) only adds a wait; with the tag off it is an empty function"},
 		"coverage": map[string]any{
 			"evaluations": st.Launches, "distinct_nontrivial": st.Distinct,
-			"rule":                    "one case = one daemon.Launch with three real processes under a forced schedule: S1 natural, S2 Done() delivered while the launcher is parked before it listens, S3 daemon parked before Done() (Launch must still be waiting after 150ms), S4 launcher released first and daemon 50ms later; 0..5 marker files written before Done(); alone or 2..4 launches concurrently; distinct = distinct (schedule, markers, concurrency width); all are non-trivial (a forced or concurrent order)",
+			"rule":                    "one case = one daemon.Launch with three real processes under a forced schedule: S1 natural, S2 Done() delivered while the launcher is parked before it listens, S3 daemon parked before Done() (Launch must still be waiting after 150ms), S4 launcher released first and daemon 50ms later; 0..5 marker files written before Done(); the launcher process lingering 0, 3 or 40 ms between launch() returning and its exit; alone, 2..4 launches concurrently under forced schedules, or bursts of 2..8 natural-order launches of different handlers released together; distinct = distinct (schedule, markers, concurrency width); all are non-trivial (a forced or concurrent order)",
 			"samples":                 st.Samples,
 			"per_schedule":            st.PerKind,
 			"concurrent_launches":     st.Concurrent,
